@@ -20,6 +20,7 @@ Theorem C16_error_table : forall f,
   match f with
   | FMissing => reader_open f = OpenErr (KSyscall ENOENT 1)
   | FDir => reader_open f = OpenErr (KSyscall EISDIR 2)
+  | FNoPath e => reader_open f = OpenErr (KSyscall e 1)
   | FFile bs =>
       ((length bs < 16)%nat -> reader_open f = OpenErr KNotInitialized) /\
       ((16 <= length bs)%nat ->
@@ -32,7 +33,7 @@ Proof. exact open_error_table. Qed.
 (* whatever the file contained (anything that is not a directory and that a client could not
    open): after start-up and first publication it is exactly the documented 72 bytes, clients can
    open it and read back the record *)
-Theorem C16_repair_recreated : forall f r, f <> FDir -> (forall h, reader_open f <> OpenOk h) -> ceb_ok r ->
+Theorem C16_repair_recreated : forall f r, f <> FDir -> (forall e, f <> FNoPath e) -> (forall h, reader_open f <> OpenOk h) -> ceb_ok r ->
   exists bs, after_first_publication f r = Some bs /\ bs = encode_header (fresh_header 2) ++ encode_ceb r /\
     length bs = 72%nat /\ (exists h, reader_open (FFile bs) = OpenOk h) /\ decode_ceb bs 16 = Some r.
 Proof. exact repair_recreated. Qed.
